@@ -330,8 +330,9 @@ def judge_case(pid, run, case, res, known):
             return
         got_w = [x["kind"] for x in res["warnings"] if "import" in x["kind"]]
         want_w = [k for k in exp["warnings"] if k == "IllegalImportPosition"]
-        if len(got_w) != len(want_w):
-            viol(f"{len(got_w)} IllegalImportPosition warning(s), expected {len(want_w)} (imports after other rules)", warnings=res["warnings"])
+        maybe_w = [k for k in exp["warnings"] if k == "IllegalImportPosition?"]
+        if not (len(want_w) <= len(got_w) <= len(want_w) + len(maybe_w)):
+            viol(f"{len(got_w)} IllegalImportPosition warning(s), expected {len(want_w)}" + (f" to {len(want_w) + len(maybe_w)}" if maybe_w else "") + " (imports after other rules)", warnings=res["warnings"])
             return
         for e, o, ws in outs["normal"][0]:
             if getattr(e, "kind", None) == "import-placeholder":
